@@ -155,6 +155,11 @@ def run_native(args, timeout=600):
     return {'status': 'error', 'reason': 'no JSON from native run (rc=%s): %s' % (p.returncode, (p.stderr or p.stdout)[-800:])}
 
 
+def _stem(name):
+    import re
+    return re.sub(r'(#\d+|@L\d+)+$', '', name)
+
+
 def load_baseline():
     path = os.path.join(HERE, 'baseline', 'obligations.json')
     if os.path.exists(path):
@@ -312,7 +317,10 @@ def run_check(prop, tier, seed, a, t0):
                 violations.append((o['name'], relp, ' no-failing-input-found'))
             else:
                 base = baseline.get(label, {})
-                if o['name'] in base.get('discharged', []) and base.get('sha') != r['sha']:
+                # the same clause on another path / line of the edited body carries the same name up to its `#path` and
+                # `@Lline` suffixes: compare the stems
+                stems = {_stem(n) for n in base.get('discharged', [])}
+                if _stem(o['name']) in stems and base.get('sha') != r['sha']:
                     # discharged on the baseline tree, the function's source changed, and now undischargeable
                     violations.append((o['name'], relp, ' no-failing-input-found'))
                 else:
